@@ -284,3 +284,57 @@ func observeDeterminism(pluginBin, out string, seed int64) []*Observation {
 	}
 	return res
 }
+
+// observeSorted (C15, sort enabled): the real plugin generates from a descriptor and from two
+// re-orderings of it (declaration order of fields and messages reversed / rotated, comments moving
+// with their declarations); with sort: true the three files must be byte-identical.
+func observeSorted(pluginBin, out string) []*Observation {
+	var res []*Observation
+	for _, name := range []string{"P-docs", "P-flags", "P-multi", "P-mini", "P-oneof", "P-embed", "P-embed-x", "P-nest", "P-names", "P-mapopt", "P-time"} {
+		base := findProgram(name)
+		o := &Observation{Name: "S-" + name, Mode: "sorted"}
+		res = append(res, o)
+		file := base.File().build()
+		cfg := base.Cfg()
+		cfg.Sort = true
+		dir := filepath.Join(out, "S-"+name)
+		cfgPath := filepath.Join(dir, "cfg.yaml")
+		writeFile(cfgPath, cfg.yaml())
+		var first string
+		for i, mut := range []func(f *d.FileDescriptorProto, c *Config) (*d.FileDescriptorProto, *Config){ident, permute, rotate} {
+			f, _ := mut(file, cfg)
+			req := buildRequest(f, "config="+cfgPath)
+			if i == 1 {
+				o.Request = filepath.Join(dir, "req-reversed.bin")
+				writeFile(o.Request, req)
+			}
+			resp, err := runPlugin(pluginBin, req, filepath.Join(dir, "plugin.log"))
+			if err != nil || len(resp.File) != 1 {
+				o.Failures = append(o.Failures, fmt.Sprintf("ordering %d: plugin failed: %v", i, err))
+				break
+			}
+			content := resp.File[0].GetContent()
+			if i == 0 {
+				first = content
+				continue
+			}
+			if content != first {
+				o.Failures = append(o.Failures, fmt.Sprintf("with sort: true the file generated from the %s declaration order differs from the original's (first difference at byte %d)",
+					[]string{"", "reversed", "rotated"}[i], firstDiff(content, first)))
+			}
+		}
+	}
+	return res
+}
+
+func firstDiff(a, b string) int {
+	for i := 0; i < len(a) && i < len(b); i++ {
+		if a[i] != b[i] {
+			return i
+		}
+	}
+	if len(a) < len(b) {
+		return len(a)
+	}
+	return len(b)
+}
